@@ -20,6 +20,9 @@ CONSTANTS
   Genesis,      \* name of the initial state
   UnitN, UnitD, \* one abstract credit unit = UnitN/UnitD credits
   Asks, Bids, MaxFees, Rates, CoinAmts, Denoms,
+  ExpTicks,     \* expirations used by Sell / UpdateSellOrders
+  Crits,        \* date criteria used by basket messages
+  Signers,      \* who may appear as a signer (Users, or Users + gov)
   MaxList,      \* 1 or 2: longest argument list in a message
   Depth         \* 0 = unbounded; otherwise a bound on the number of steps
 
@@ -58,15 +61,49 @@ BatchGenesis ==
      !.supply  = {[bk |-> 1, t |-> 3, r |-> 1, c |-> 0]},
      !.seq     = [@ EXCEPT !.batch = 1]]
 
+\* ... a second batch with an earlier start date, a second allowed denom
+MarketGenesis ==
+  [BatchGenesis EXCEPT
+     !.denoms  = @ \cup {[bank |-> "uatom", display |-> "atom", exp |-> 6]},
+     !.bal     = {[a |-> "a1", bk |-> 1, t |-> 3, r |-> 0, e |-> 0],
+                  [a |-> "a2", bk |-> 1, t |-> 1, r |-> 1, e |-> 0]},
+     !.supply  = {[bk |-> 1, t |-> 4, r |-> 1, c |-> 0]}]
+
+\* two batches with different start dates (one before 1970), held by a1 and a2,
+\* and one basket that accepts class C01 and does not auto-retire
+BasketGenesis ==
+  [ClassGenesis EXCEPT
+     !.batches = {[key |-> 1, issuer |-> "a1", pk |-> 1,
+                   denom |-> BatchDenomOf("C01-001", 7, 8, 1), meta |-> "m0",
+                   start |-> 7, end |-> 8, issued |-> 6, open |-> FALSE, ck |-> 0],
+                  [key |-> 2, issuer |-> "a1", pk |-> 1,
+                   denom |-> BatchDenomOf("C01-001", 3, 8, 2), meta |-> "m0",
+                   start |-> 3, end |-> 8, issued |-> 6, open |-> FALSE, ck |-> 0]},
+     !.bseq    = {[pk |-> 1, next |-> 3]},
+     !.bal     = {[a |-> "a1", bk |-> 1, t |-> 2, r |-> 0, e |-> 0],
+                  [a |-> "a1", bk |-> 2, t |-> 2, r |-> 0, e |-> 0],
+                  [a |-> "a2", bk |-> 1, t |-> 1, r |-> 0, e |-> 0]},
+     !.supply  = {[bk |-> 1, t |-> 3, r |-> 0, c |-> 0], [bk |-> 2, t |-> 2, r |-> 0, c |-> 0]},
+     !.baskets = {[id |-> 1, denom |-> BasketDenomOf("C", "NCT"), name |-> "NCT", dar |-> TRUE,
+                   ct |-> "C", crit |-> NoCrit, curator |-> "a1"]},
+     !.bclasses = {[bid |-> 1, cid |-> "C01"]},
+     !.seq     = [@ EXCEPT !.batch = 2, !.basket = 1]]
+
 GenesisState ==
   CASE Genesis = "default" -> DefaultGenesis
     [] Genesis = "class"   -> ClassGenesis
     [] Genesis = "batch"   -> BatchGenesis
+    [] Genesis = "market"  -> MarketGenesis
+    [] Genesis = "basket"  -> BasketGenesis
 
 \* ------------------------------------------------------------------ message domains
 BatchDenoms(s) == {b.denom : b \in s.batches} \cup {"C09-001-19700315-19700527-001"}
 ClassIds(s)    == {c.id : c \in s.classes} \cup {"C09"}
 ProjectIds(s)  == {p.id : p \in s.projects} \cup {"C09-001"}
+
+BasketDenoms(s) == {k.denom : k \in s.baskets} \cup {"eco.uC.XXX"}
+OrderIds(s)     == 1..MaxOrders
+OptExp(s)       == {NoTime} \cup {SomeTime(t) : t \in ExpTicks}
 
 Issuance == {[to |-> u, t |-> t, r |-> r] : u \in Users, t \in Amts, r \in Amts}
 NoOriginSet == {NoOrigin}
@@ -108,6 +145,65 @@ Msgs(s, T) ==
          {[type |-> T, owner |-> a, credits |-> cs]
             : a \in Users,
               cs \in Seqs12({[denom |-> d, amt |-> n] : d \in BatchDenoms(s), n \in Amts})}
+    [] T = "Sell" ->
+         IF Cardinality(s.orders) >= MaxOrders \/ s.seq.order >= MaxOrders THEN {} ELSE
+         {[type |-> T, seller |-> a, orders |-> os]
+            : a \in Users,
+              os \in Seqs12({[denom |-> d, qty |-> q, ask_denom |-> ad, ask_amt |-> p,
+                               dar |-> dr, exp |-> x]
+                              : d \in BatchDenoms(s), q \in Amts, ad \in Denoms \cup {"ufoo"},
+                                p \in Asks, dr \in BOOLEAN, x \in OptExp(s)})}
+    [] T = "UpdateSellOrders" ->
+         {[type |-> T, seller |-> a, updates |-> us]
+            : a \in Users,
+              us \in Seqs1({[id |-> i, qty |-> q, ask_denom |-> ad, ask_amt |-> p,
+                              dar |-> dr, exp |-> x]
+                              : i \in OrderIds(s), q \in Amts \ {0}, ad \in Denoms \cup {"ufoo"},
+                                p \in Asks, dr \in BOOLEAN, x \in OptExp(s)})}
+    [] T = "CancelSellOrder" ->
+         {[type |-> T, seller |-> a, id |-> i] : a \in Users, i \in OrderIds(s)}
+    [] T = "BuyDirect" ->
+         {[type |-> T, buyer |-> a, orders |-> os]
+            : a \in Users,
+              os \in Seqs12({[id |-> i, qty |-> q, bid_denom |-> bd, bid_amt |-> p,
+                               dar |-> dr,
+                               maxfee |-> IF f < 0 THEN NoCoin ELSE SomeCoin(bd, f)]
+                              : i \in OrderIds(s), q \in Amts \ {0}, bd \in Denoms, p \in Bids,
+                                dr \in BOOLEAN, f \in MaxFees \cup {-1}})}
+    [] T = "AddAllowedDenom" ->
+         {[type |-> T, authority |-> a, bank |-> d, display |-> d, exp |-> 6]
+            : a \in Signers, d \in Denoms \cup {"ufoo"}}
+    [] T = "RemoveAllowedDenom" ->
+         {[type |-> T, authority |-> a, denom |-> d] : a \in Signers, d \in Denoms \cup {"ufoo"}}
+    [] T = "GovSetFeeParams" ->
+         {[type |-> T, authority |-> a, buyer |-> b, seller |-> sl]
+            : a \in Signers, b \in Rates, sl \in Rates}
+    [] T = "GovSendFromFeePool" ->
+         {[type |-> T, authority |-> a, recipient |-> u, denom |-> d, n |-> n]
+            : a \in Signers, u \in Users, d \in Denoms, n \in CoinAmts}
+    [] T = "BankSend" ->
+         {[type |-> T, from |-> a, to |-> b, denom |-> d, n |-> n]
+            : a \in Users, b \in Users, n \in (CoinAmts \cup Amts) \ {0},
+              d \in Denoms \cup {k.denom : k \in s.baskets}}
+    [] T = "BasketCreate" ->
+         IF Cardinality(s.baskets) >= MaxBaskets THEN {} ELSE
+         {[type |-> T, curator |-> a, name |-> nm, ct |-> "C", classes |-> cs, dar |-> dr,
+           crit |-> cr, fee |-> NoCoin]
+            : a \in Users, nm \in {"NCT", "BCT"}, cs \in Seqs1(ClassIds(s)), dr \in BOOLEAN,
+              cr \in Crits}
+    [] T = "Put" ->
+         {[type |-> T, owner |-> a, basket_denom |-> k, credits |-> cs]
+            : a \in Users, k \in BasketDenoms(s),
+              cs \in Seqs12({[denom |-> d, amt |-> n] : d \in BatchDenoms(s), n \in Amts})}
+    [] T = "Take" ->
+         {[type |-> T, owner |-> a, basket_denom |-> k, amt |-> n, retire |-> rt]
+            : a \in Users, k \in BasketDenoms(s), n \in Amts \cup {3}, rt \in BOOLEAN}
+    [] T = "UpdateCurator" ->
+         {[type |-> T, curator |-> a, new_curator |-> b, denom |-> k]
+            : a \in Users, b \in Users, k \in BasketDenoms(s)}
+    [] T = "UpdateDateCriteria" ->
+         {[type |-> T, authority |-> a, denom |-> k, crit |-> cr]
+            : a \in Signers, k \in BasketDenoms(s), cr \in Crits}
     [] T = "BeginBlock" ->
          {[type |-> T, t |-> t] : t \in {x \in Ticks : x >= s.now}}
     [] OTHER -> {}
